@@ -1793,6 +1793,25 @@ func (tr *FnTrans) doCall(st *BState, ci ssa.CallInstruction) Val {
 		}
 	}
 	site.ParamNames, site.ResNames = sigNames(sig, cc.IsInvoke())
+	if mc, isCl := cc.Value.(*ssa.MakeClosure); isCl {
+		// a function literal called (or started with go / defer) where it is written: the variables it
+		// captures are members of the site too, under their own names, next to its parameters
+		if lit, ok := mc.Fn.(*ssa.Function); ok {
+			for i, fv := range lit.FreeVars {
+				if i < len(mc.Bindings) && fv.Name() != "" && !contains(site.ParamNames, fv.Name()) {
+					b := tr.val(mc.Bindings[i])
+					if pt, isPtr := mc.Bindings[i].Type().Underlying().(*types.Pointer); isPtr {
+						if _, isAlloc := mc.Bindings[i].(*ssa.Alloc); isAlloc {
+							// captured by reference: the member is the variable's current value
+							b = Val{T: tr.load(site.Before, b.T, pt.Elem(), st.reach, true), Ty: pt.Elem()}
+						}
+					}
+					site.Args = append(site.Args, b)
+					site.ParamNames = append(site.ParamNames, fv.Name())
+				}
+			}
+		}
+	}
 	for _, alias := range tr.siteDeclOf[ci] {
 		tr.siteByAlias[alias] = site
 	}
